@@ -272,7 +272,9 @@ func VerifC13TSRouteConsts() {
 	if hasQuery {
 		verif.SetExt(o2, http.E_Query, &http.QueryConfig{Name: "q"})
 	}
-	verif.AddField(req, &verif.FieldDesc{FName: "id", FJSON: "id", FKind: protoreflect.StringKind, FNumber: 1, FOpts: o1}, "Id")
+	if pathVar || verif.Bool("unboundIdField") {
+		verif.AddField(req, &verif.FieldDesc{FName: "id", FJSON: "id", FKind: protoreflect.StringKind, FNumber: 1, FOpts: o1}, "Id")
+	}
 	verif.AddField(req, &verif.FieldDesc{FName: "q", FJSON: "q", FKind: protoreflect.StringKind, FNumber: 2, FOpts: o2}, "Q")
 	verb := http.HttpMethod(verif.Choice("verb", 6))
 	path := "/things"
@@ -281,7 +283,18 @@ func VerifC13TSRouteConsts() {
 	}
 	mo := &descriptorpb.MethodOptions{}
 	verif.SetExt(mo, http.E_Config, &http.HttpConfig{Path: path, Method: verb})
-	svc := verif.NewService("acme.v1", "ThingService", &descriptorpb.ServiceOptions{})
+	// service base path: none, plain, or with a variable of its own
+	so := &descriptorpb.ServiceOptions{}
+	switch verif.Choice("basePath", 3) {
+	case 1:
+		verif.SetExt(so, http.E_ServiceConfig, &http.ServiceConfig{BasePath: "/api/v1"})
+	case 2:
+		verif.SetExt(so, http.E_ServiceConfig, &http.ServiceConfig{BasePath: "/orgs/{org_id}"})
+		if verif.Bool("basePathVariableIsAField") {
+			verif.AddField(req, &verif.FieldDesc{FName: "org_id", FJSON: "orgId", FKind: protoreflect.StringKind, FNumber: 3, FOpts: &descriptorpb.FieldOptions{}}, "OrgId")
+		}
+	}
+	svc := verif.NewService("acme.v1", "ThingService", so)
 	m := verif.NewMethod(svc, "Get", "Get", req, verif.NewMessage("acme.v1", "Resp"), mo)
 	lines, err := tsservergen.VerifRouteLines(svc, m)
 	if err != nil {
